@@ -760,7 +760,13 @@ func (n *node) save(rec rsm.Task) error {
 func (n *node) doSave(req rsm.SSRequest) (uint64, error) {
 	n.snapshotLock.Lock()
 	defer n.snapshotLock.Unlock()
-	if !req.Exported() && n.sm.GetLastApplied() <= n.ss.getIndex() {
+	applied := n.sm.GetLastApplied()
+	if applied == 0 {
+		// nothing has been applied yet, e.g. a joining replica that has not been
+		// contacted by the leader, there is no membership and nothing to export
+		return 0, nil
+	}
+	if !req.Exported() && applied <= n.ss.getIndex() {
 		// a snapshot has been pushed to the sm but not applied yet
 		// or the snapshot has been applied and there is no further progress
 		return 0, nil
